@@ -230,6 +230,60 @@ def closure_programs(rng, n):
     return out
 
 
+def alias_closure_programs(rng, n):
+    """A local function reads (or, declaring it nonlocal, writes) a variable that an if / while / for reads and writes, and
+    after the block the variable is observed ONLY by calling that closure through another name: (a) an alias bound before
+    the block, (b) another local function that calls it, (c) a container element or a default argument holding it,
+    (d) handing it to a module-level function that calls it.  A contract-following if_stmt (keeps the first nouts entries,
+    restores the rest) must then compute what the native run computes: the variable is an OUTPUT of the block."""
+    out = []
+    for k in range(n):
+        L = ['def apply1(k):', '    return k()', 'def f(a, b, c, l):', '    x = a', '    y = b']
+        writer = rng.random() < 0.35
+        if writer:
+            L += ['    def get():', '        nonlocal x', '        x = x + 1', '        return x']
+        else:
+            L += ['    def get():', '        return x%s' % rng.choice(['', ' + y', ' * 2'])]
+        how = rng.choice(['alias', 'via', 'list', 'default', 'caller', 'alias2'])
+        if how == 'alias':
+            L.append('    h = get'); obs = 'h()'
+        elif how == 'alias2':
+            L += ['    h0 = get', '    h = h0']; obs = 'h()'
+        elif how == 'via':
+            L += ['    def via():', '        return get() + 1']; obs = 'via()'
+        elif how == 'list':
+            L.append('    fs = [get, 0]'); obs = 'fs[0]()'
+        elif how == 'default':
+            L += ['    def call(k=get):', '        return k()']; obs = 'call()'
+        else:
+            L.append('    h = get'); obs = 'apply1(h)'
+        upd = rng.choice(['x = x + 10', 'x = x * 3 + y', 'x += a', 'x = x - 1'])
+        cond = rng.choice(['b > 0', 'a > b', 'd()', 'x > 0', 'c == 0'])
+        form = rng.randrange(5)
+        if form == 0:
+            L += ['    if %s:' % cond, '        ' + upd]
+        elif form == 1:
+            L += ['    if %s:' % cond, '        ' + upd, '    else:', '        x = x + 1']
+        elif form == 2:
+            L += ['    for i in %s:' % rng.choice(['l', 'range(2)']), '        if %s:' % cond, '            ' + upd]
+        elif form == 3:
+            L += ['    w = 0', '    while w < 2:', '        w += 1', '        if %s:' % cond, '            ' + upd]
+        else:
+            L += ['    if %s:' % rng.choice(['c >= 0', 'a != b']), '        if %s:' % cond, '            ' + upd]
+        if rng.random() < 0.5:
+            L.append('    y = y + 1')
+        if rng.random() < 0.3:
+            L += ['    if %s:' % rng.choice(['a > 1', 'd()']), '        y = y + x']
+            direct = True
+        L.append('    r = %s' % obs)
+        L.append('    return r, y')
+        inputs = [(1, 2, 3, [1, 2]), (0, 0, 0, [0]), (-1, 5, 0, [3]), (2, 1, -1, [])]
+        out.append(progen.Program(progen.RANDOM_PRELUDE + '\n'.join(L) + '\n', inputs,
+                                  {'alias_closure', 'outputs_first', 'nested_def', 'if'} | ({'nonlocal'} if writer else set()),
+                                  'alias_closure', decisions=progen.decision_vectors(random.Random(rng.getrandbits(30)), 3)))
+    return out
+
+
 def expect_of_source(source):
     """Expectation table recomputed from a program text alone (replays / corpus)."""
     cut = source.rfind('\ndef f(') + 1      # 0 when `f` is not a top-level def (closure entities): whole module
@@ -353,7 +407,7 @@ def process_chunk(args):
         for pj, ej in items:
             prog = progen.Program.from_json(pj)
             expect = expect_from_json(ej)
-            res = {'key': prog.key, 'kind': pj.get('kind'), 'features': pj.get('features', []), 'errors': [], 'cf': [], 'checker': [], 'c01cf': [],
+            res = {'key': prog.key, 'kind': pj.get('kind'), 'features': pj.get('features', []), 'errors': [], 'cf': [], 'checker': [], 'c01cf': [], 'liveout_checked': 0, 'liveout_bad': [],
                    'why': {'calls': 0, 'with_state': 0, 'composite_entries': 0, 'dependent_entries': 0},
                    'rt_failures': [], 'counts': {}, 'ncalls_static': {}, 'runs': 0, 'diverged': 0, 'traces': 0,
                    'directive_loops': len(expect['loops']), 'seen_directive_loops': 0}
@@ -370,6 +424,15 @@ def process_chunk(args):
                     res['errors'].append('convert(recursive=%s): %s' % (rec, repr(tr.error)[:300]))
                     continue
                 res['traces'] += 1
+                try:
+                    k_, ps_ = c03_cf.cf_pass(tr)
+                    if ps_ is not None and ps_.before is not None and ps_.before[:1] != ['SNAPSHOT-ERROR']:
+                        nchk, bad = c03_cf.closure_liveout_violations(ps_.before, ps_.before_annos)
+                        res['liveout_checked'] += nchk
+                        for b in bad[:2]:
+                            res['liveout_bad'].append(dict(b, recursive=rec))
+                except Exception as e:  # noqa
+                    res['errors'].append('closure live-out checker: %r' % (e,))
                 if use_driver:
                     req = c03_cf.cf_request(tr)
                     if req is not None:
@@ -494,6 +557,8 @@ def gen_programs(run):
         out.append((q, e))
     for p in clo:       # closure entities carry their own directives (the entity is not a top-level def)
         out.append((p, expect_of_source(p.source)))
+    for p in alias_closure_programs(random.Random(rng.getrandbits(32)), 60 if quick else 250):
+        out.append((p, expect_of_source(p.source)))
     return out, info
 
 
@@ -600,6 +665,9 @@ def absorb(run, results, progs_by_key, stats, corpus_expect=None):
             stats['checker_calls'] += c.get('ncalls') or 0
             if not c['ok']:
                 ck_bad.append({'program': prog.to_json(), 'recursive': c['recursive'], 'checker_answer': c['answer']})
+        stats['liveout_checked'] += res.get('liveout_checked', 0)
+        for b in res.get('liveout_bad', []):
+            stats['liveout_bad'].append({'program': prog.to_json(), 'annotation': b})
         for k, v in res.get('why', {}).items():
             stats['why'][k] = stats['why'].get(k, 0) + v
         for c in res.get('c01cf', []):
@@ -637,7 +705,7 @@ def absorb(run, results, progs_by_key, stats, corpus_expect=None):
 
 def new_stats():
     return {'programs': 0, 'traces': 0, 'runs': 0, 'diverged': 0, 'rt': {}, 'static_calls': {}, 'features': {}, 'errors': {},
-            'cf_cases': 0, 'checker_cases': 0, 'checker_calls': 0, 'directive_loops': 0, 'seen_directive_loops': 0, 'why': {},
+            'cf_cases': 0, 'checker_cases': 0, 'checker_calls': 0, 'directive_loops': 0, 'seen_directive_loops': 0, 'why': {}, 'liveout_checked': 0, 'liveout_bad': [],
             'c01cf': dict({k: 0 for k in ('tables', 'bad_answers', 'no_skip', 'pd_hyp', 'nl_hyp', 'model_routed', 'model_pd', 'model_nl',
                                           'real_pass_trees', 'real_pass_routed', 'real_pass_pd', 'real_pass_nl',
                                           'real_final_trees', 'real_final_routed', 'real_final_pd', 'real_final_nl')},
@@ -799,6 +867,15 @@ def check(run, only=None):
     else:
         run.oblige('correspondence:c03.cf', 'correspondence', False, 'driver unavailable')
         run.oblige('checker:contractOk-on-real-output', 'checker', False, 'driver unavailable')
+
+    # ---------------- checker on the REAL annotations the pass reads (needs no Lean): closures keep their variables live
+    lb = stats['liveout_bad']
+    run.cov['closure_liveout_triples_checked'] = stats['liveout_checked']
+    run.oblige('checker:closure-variables-live-out-of-blocks-on-real-annotations', 'checker', not lb,
+               json.dumps([b['annotation'] for b in lb[:3]])[:1200] if lb else '')
+    for b in lb[:3]:
+        run.fail('LIVE_VARS_OUT of a block lacks a variable read by a local function that can be called after the block '
+                 '(it is then classified input-only: not among the first nouts state entries)', b, None)
 
     # ---------------- focused search when the tie broke: more decision vectors on the disagreeing programs
     if (cf_dis or ck_bad) and only is None:
